@@ -44,7 +44,7 @@ class ContinueEx(Exception):
 
 EXC_PARENTS = {
     "KeyError": "LookupError", "IndexError": "LookupError", "LookupError": "Exception",
-    "FileNotFoundError": "OSError", "OSError": "Exception", "IOError": "Exception",
+    "FileNotFoundError": "OSError", "NotADirectoryError": "OSError", "IsADirectoryError": "OSError", "PermissionError": "OSError", "OSError": "Exception", "IOError": "Exception",
     "ValueError": "Exception", "TypeError": "Exception", "AssertionError": "Exception",
     "NotImplementedError": "RuntimeError", "RuntimeError": "Exception", "StopIteration": "Exception",
     "AttributeError": "Exception", "Exception": "BaseException", "KeyboardInterrupt": "BaseException",
